@@ -19,7 +19,7 @@ from vlib import build, driver, model as M, rigp, runner
 PID = "C04"
 KINDS_C = ["ok", "rid+1", "rid-1", "rid0", "ridneg", "rid+2^32", "rid-2^32", "stale", "comm_prefix", "comm_suffix", "comm_empty", "comm_case", "version", "trunc", "late", "dup"]
 KINDS_3 = ["ok", "rid+1", "rid-1", "rid0", "ridneg", "rid+2^32", "rid-2^32", "stale", "msgid", "msgid+2^32", "user", "engine", "version", "trunc", "late", "dup", "report",
-           "report_engine", "report_user", "report_msgid", "rid+1_privflag0", "stale_privflag0"]
+           "report_engine", "report_user", "report_msgid", "rid+1_privflag0", "stale_privflag0", "user_empty_f4", "user_empty_f0"]
 T_SHORT = 0.25
 
 
@@ -98,6 +98,11 @@ class Script:
             elif k == "user":
                 ov["user"] = req.m["usm"]["user"] + b"x"
                 ov["auth_user"] = agent.users.get(req.m["usm"]["user"])
+                d["creds"] = False
+            elif k in ("user_empty_f4", "user_empty_f0"):
+                # a Response (not a Report) without user name, unauthenticated and in clear, msgFlags = reportable only / none:
+                # what a discovery Report's header looks like, around an ordinary answer
+                ov.update(user=b"", flags=4 if k.endswith("f4") else 0, mac="empty", encrypt=False)
                 d["creds"] = False
             elif k == "engine":
                 ov["engine_id"] = agent.engine_id + b"\x01"
